@@ -44,7 +44,7 @@ BeginMine ==
     /\ Ev.b = Cardinality(Ids)
     /\ cur = Ev.p                       \* the driver always extends the current head
     /\ blocks' = blocks @@ (Ev.b :> [parent |-> Ev.p, height |-> Ev.h, spent |-> ToSet(Ev.sp),
-                                     created |-> ToSet(Ev.cr), trimmable |-> ToSet(Ev.tm)])
+                                     created |-> ToSet(Ev.cr), trimmable |-> ToSet(Ev.tm), honest |-> TRUE])
     /\ todo' = << <<"canon", Ev.b>>, <<"batch", Ev.b>>, <<"head", Ev.b>> >> /\ aborted' = FALSE
     /\ pending' = <<"mine">>
     /\ UNCHANGED <<dbUtxo, dbCanon, dbHead, dbUndo, dbMu, dbSize, cur, interrupted, crashedEver, steps, hist, l, mismatch>>
@@ -56,6 +56,16 @@ BeginSetHead ==
     /\ aborted' = FALSE
     /\ pending' = <<"sethead">>
     /\ UNCHANGED <<blocks, dbUtxo, dbCanon, dbHead, dbUndo, dbMu, dbSize, cur, interrupted, crashedEver, steps, hist, l, mismatch>>
+
+\* an adversarial, re-sealed copy of block Ev.of is offered while its parent is head (C07)
+BeginTamper ==
+    /\ l <= Len(Trace) /\ pending = <<>> /\ Ev.op = "tamper" /\ Idle
+    /\ Ev.b = Cardinality(Ids)
+    /\ cur = blocks[Ev.of].parent
+    /\ blocks' = blocks @@ (Ev.b :> [blocks[Ev.of] EXCEPT !.honest = FALSE])
+    /\ todo' = << <<"canon", Ev.b>>, <<"batch", Ev.b>>, <<"head", Ev.b>> >> /\ aborted' = FALSE
+    /\ pending' = <<"tamper">>
+    /\ UNCHANGED <<dbUtxo, dbCanon, dbHead, dbUndo, dbMu, dbSize, cur, interrupted, crashedEver, steps, hist, l, mismatch>>
 
 \* silent primitive writes (the spec's own actions, unchanged)
 Silent ==
@@ -69,17 +79,19 @@ EndEvent ==
     /\ mismatch' = IF mismatch # <<>> THEN mismatch
                    ELSE IF pending[1] = "mine" /\ ToSet(Ev.tr) # dbUndo[Ev.b].trimmed
                         THEN <<l, "trimmed", ToSet(Ev.tr), dbUndo[Ev.b].trimmed>>
+                   ELSE IF pending[1] = "tamper" /\ Ev.accepted THEN <<l, "tampered-block-accepted", Ev.mutation>>
+                   ELSE IF pending[1] = "tamper" /\ ~Ev.image_unchanged THEN <<l, "rejected-block-left-trace", Ev.mutation>>
                    ELSE IF Disagreement(Ev) # <<>> THEN <<l>> \o Disagreement(Ev) ELSE <<>>
     /\ pending' = <<>> /\ l' = l + 1
     /\ UNCHANGED vars
 
-TraceNext == BeginMine \/ BeginSetHead \/ Silent \/ EndEvent
+TraceNext == BeginMine \/ BeginSetHead \/ BeginTamper \/ Silent \/ EndEvent
 TraceSpec == TraceInit /\ [][TraceNext]_tvars
 
 \* the implementation's database image equals the specification's after every event (C06, C10)
 ImageConforms == mismatch = <<>>
 \* an accepted block never aborts in the specification (its inputs existed): C01/C07 side condition
-AcceptedBlocksValid == ~aborted
+AcceptedBlocksValid == (pending # <<>> /\ pending[1] = "mine") => ~aborted
 
 HighWater == TLCSet(1, IF TLCGet(1) < l THEN l ELSE TLCGet(1))
 TraceAccepted == TLCGet(1) = Len(Trace) + 1
